@@ -1,5 +1,6 @@
 import ArimModel.Assembly
 import ArimProofs.Generated.SrcC08
+import ArimProofs.Tie.C10
 /-! # C08 — tie between the generated translation of `directivity_2d_rectangular_in_fluid` and the model -/
 namespace Arim.Tie.C08
 open Arim.Assembly
@@ -17,5 +18,31 @@ theorem tie_directivity (o : Src.Ops K) (theta width lam : K) :
 theorem tie_directivity_ok (o : Src.Ops K) (theta width lam : K) (hw : ¬ width < o.ofNat 0) (hl : ¬ lam < o.ofNat 0) :
     Src.directivity_2d_rectangular_in_fluid o theta width lam = some (directivity o.sinc o.sin width theta lam) := by
   rw [tie_directivity, if_neg hw, if_neg hl]
+
+section matrix
+variable {K : Type} [Add K] [Sub K] [Mul K] [Div K] [Neg K]
+
+/-- **tie**: one entry (grid point, timetrace `k`) of the translated `_model_amplitudes_with_scat_matrix` is the
+model's `modelAmp` with `S` the translated interpolation kernel: `S(θ_tx − a, θ_rx − a) · Q_tx · Q'_rx` -/
+theorem tie_model_amplitudes_matrix (o : Src.Ops K) (tx rx : Nat → Nat) (M : Nat → Nat → K) (n : Nat)
+    (txw rxw txa rxa : Nat → K) (a : K) (k : Nat) :
+    Src.model_amplitudes_with_scat_matrix_cell o tx rx M n txw rxw txa rxa a k =
+      modelAmp (fun x y => Src.interpolate_scattering_matrix_kernel o M n x y)
+        (fun _ e => txa e) (fun _ e => rxa e) (fun _ e => txw e) (fun _ e => rxw e) a tx rx 0 k := rfl
+
+end matrix
+
+section matrixField
+variable {K : Type} [Field K]
+
+/-- with lawful routines the scattering factor is the model's bilinear interpolant of the matrix -/
+theorem tie_model_amplitudes_matrix_interp (o : Src.Ops K) (h : Arim.Tie.C10.Lawful o) (tx rx : Nat → Nat)
+    (M : Nat → Nat → K) (n : Nat) (hn : 0 < n) (txw rxw txa rxa : Nat → K) (a : K) (k : Nat) :
+    Src.model_amplitudes_with_scat_matrix_cell o tx rx M n txw rxw txa rxa a k =
+      Arim.ScatMat.interp (Arim.Tie.C10.fops o) o.pi n M (txa (tx k) - a) (rxa (rx k) - a) * txw (tx k) * rxw (rx k) := by
+  rw [tie_model_amplitudes_matrix]
+  simp only [modelAmp, Arim.Tie.C10.tie_interp o h M n hn]
+
+end matrixField
 
 end Arim.Tie.C08
